@@ -183,8 +183,15 @@ pub fn gen(prop: &str, tier: &str, seed: u64, out: &mut Vec<String>) {
                         let sink = *r.pick(SINKS);
                         let fl = if r.chance(1, 2) { "sync" } else { "fsm" };
                         let fill = 1 + r.below(255);
+                        // half of the cases: the response is followed by more bytes on the same reader
+                        let tail = if r.chance(1, 2) {
+                            let n = 1 + r.below(9000) as usize;
+                            format!("+x{}", (0..n).map(|i| format!("{:02x}", (i * 31 + 7) % 256)).collect::<String>())
+                        } else {
+                            String::new()
+                        };
                         out.push(format!(
-                            "decr {fl} {sink} {b} {bs} {} {} 0:0:$ {fill}",
+                            "decr {fl} {sink} {b} {bs} {} {} 0:0:${tail} {fill}",
                             nat_list(&q),
                             honest(&b, bs, &q)
                         ));
